@@ -23,5 +23,7 @@ RecordOK ==
       \* (C08) an event sent through a Resource value obtained in an earlier life of the service: applied,
       \* published on the connection of the CURRENT life, then handed to the listeners
       [] R.kind = "retained" -> R.seq = <<"apply", "pub", "listen">>
+      \* (C08) an event sent on the QueryRequest inside a query callback
+      [] R.kind = "querycb"  -> R.seq = <<"apply", "pub", "listen">>
       [] OTHER -> FALSE
 =============================================================================
